@@ -9,6 +9,7 @@ pub mod c11;
 pub mod c12;
 pub mod c15;
 pub mod c16;
+pub mod c17;
 
 pub fn eval(op: &str, args: &[&str]) -> Option<String> {
     // "m." ops are the same implementation operation, compared with the implementation-mirroring model
@@ -26,6 +27,7 @@ pub fn eval(op: &str, args: &[&str]) -> Option<String> {
         "c12" | "c13" | "c14" => c12::eval(op, args),
         "c15" => c15::eval(op, args),
         "c16" => c16::eval(op, args),
+        "c17" | "c19" => c17::eval(op, args),
         _ => None,
     }
 }
@@ -42,6 +44,7 @@ pub fn generate(prop: &str, thorough: bool, rng: &mut Rng, em: &mut Emit) {
         "C12" | "C13" | "C14" => c12::generate(prop, thorough, rng, em),
         "C15" => c15::generate(thorough, rng, em),
         "C16" => c16::generate(thorough, rng, em),
+        "C17" | "C19" => c17::generate(prop, thorough, rng, em),
         _ => panic!("unknown property {}", prop),
     }
 }
